@@ -282,6 +282,38 @@ fn cm_bloom_item<T: Hash + Clone + std::fmt::Debug>(ctx: &Ctx, item: &T, bytes: 
     n
 }
 
+/// An item that feeds exactly its 16 bytes to the hasher in one write.
+#[derive(Clone, Debug)]
+struct Raw16([u8; 16]);
+impl Hash for Raw16 {
+    fn hash<H: std::hash::Hasher>(&self, state: &mut H) {
+        state.write(&self.0);
+    }
+}
+
+/// Digest-boundary enumeration: items are CONSTRUCTED (MurmurHash3 is inverted for one block)
+/// so that the 128-bit digest takes every leading-zero count 0..=64 in the word the value /
+/// column is derived from, crossed with extreme patterns of the word the slot / row / theta
+/// hash is derived from. These digests have probability 2^-40 .. 2^-64 per item, so no
+/// ordinary item domain reaches them.
+fn digest_boundaries(ctx: &Ctx) -> u64 {
+    let mut n = 0;
+    let h1_patterns: [u64; 10] = [0, 1, 2, 3, u64::MAX, u64::MAX - 1, 1 << 63, (1 << 63) - 1, 0x3FF_FFFF, 0xFFFF_FFFF_FC00_0000];
+    for seed in [9001u64] {
+        for lz in 0..=64u32 {
+            let h2s: Vec<u64> = if lz == 64 { vec![0] } else { vec![1u64 << (63 - lz), (u64::MAX >> lz)] };
+            for h2 in h2s {
+                for &h1 in &h1_patterns {
+                    let item = Raw16(refhash::murmur3_preimage16(h1, h2, seed));
+                    n += check_item(ctx, &item, &format!("constructed digest (h1 {h1:#x}, h2 with {lz} leading zeros)"));
+                }
+            }
+        }
+    }
+    ctx.count("derived quantities: constructed digests (leading zeros 0..=64 x slot/row/hash patterns)", n);
+    n
+}
+
 fn derived(ctx: &Ctx) -> u64 {
     let mut n = 0u64;
     let nu = ctx.tier.pick(1024u64, 4096);
@@ -478,7 +510,7 @@ pub fn run(ctx: &Ctx) -> i32 {
     ctx.count("direct_compositions_fed_as_real_writes", comps);
     ctx.add_transitions(comps);
     ctx.sample(json!({"composition":{"algo":"xxh64","n":12,"chunks":[1,1,3,0,7],"note":"every one of the 2^(n-1) ordered splittings is fed as successive write calls"}}));
-    let d = derived(ctx);
+    let d = derived(ctx) + digest_boundaries(ctx);
     ctx.count("derived_quantity_evaluations", d);
     ctx.sample(json!({"derived":{"item":"u64 17","hashed_bytes":hex(&recorded_bytes(&17u64)),"checks":["HLL coupon","theta hash x3 seeds","CPC row/col x3 configs","Count-Min buckets","Bloom positions"]}}));
     let cov = json!({
